@@ -49,6 +49,9 @@ DEFAULT_CALL_PATTERNS = [
     (r'c:unique_ptr<.*>\(pointer\)', '$0'),
     (r'c:unique_ptr<.*>\(.*nullptr_t.*\)', '0'),
     (r'c:unique_ptr<.*>/0', '0'),
+    # std::unique_lock is kept as a pointer to its mutex: explicit unlock() / lock() act on that mutex; its destructor releases it only while held
+    (r'm:unique_lock<.*>::unlock', 'verif_mutex_unlock(*$o)'),
+    (r'm:unique_lock<.*>::lock', 'verif_mutex_lock(*$o)'),
 ]
 
 
@@ -1076,7 +1079,10 @@ class Translator:
             args = [a for a in core.get('inner', [])]
             if len(args) >= 1:
                 m = self.addr(self.expr(args[0]))
-                self.defers[-1].append('verif_mutex_unlock(%s);\n' % m)
+                if qt.startswith('unique_lock'):
+                    self.defers[-1].append('if ((%s)->held) verif_mutex_unlock(%s);\n' % (m, m))
+                else:
+                    self.defers[-1].append('verif_mutex_unlock(%s);\n' % m)
                 if qt.startswith('unique_lock'):
                     # the lock object is passed on (condition variable wait): keep it as a pointer to its mutex
                     self.locals[-1][v['id']] = CT('verif_mutex', ptr=1)
